@@ -230,12 +230,47 @@ def check_relations(ref, pr, st, cand):
 
 
 def plan(tier, seed):
-    shards = [{"mode": "bfs"}]
+    shards = [{"mode": "bfs"}, {"mode": "linked"}]
     n = 6 if tier == "thorough" else 2
     shards += [{"mode": "stateless", "index": i, "count": n} for i in range(n)]
     if tier == "thorough":
-        shards = [{"mode": "bfs", "first": i} for i in range(8)] + shards[1:]
+        shards = [{"mode": "bfs", "first": i} for i in range(9)] + shards[1:]
     return {"shards": shards}
+
+
+def run_linked(sh=None):
+    """One fixed world with an entity whose folder is a symbolic link to a folder outside the project root (an asset kept on
+    another volume and linked in): it exists, is listed by its parent and its siblings, and lists its own children."""
+    import os
+    from mc import env, tree
+    from mc.ref.store import Store, sources_for_demo
+    from mc.ref.confview import load_private
+    C = c15.ctx()
+    ref, c0 = C["ref"], C["names"][0]
+    pr = C["prs"][c0]
+    ents = {k: v for k, v in entities(C, "quick").items() if k in ("F1", "M1", "F3")}
+    f1 = ents["F1"].split("/")
+    opens = [i for i, (k, p) in enumerate(ref.templates[ref.natural(ents["F1"])[0]]) if p is None]
+    rec = Recorder(0, 1, (sh or {}).get("seed", 0))
+    if not opens:
+        return rec.result()
+    ai = opens[0]
+    lk = "/".join(f1[:ai] + ["lnk"])                      # the linked asset
+    below = "/".join(f1[:ai] + ["lnk"] + f1[ai + 1:ai + 2])  # a task folder inside it
+    env.clear_tree()
+    tree.materialize(ref, pr, list(ents.values()))
+    ext = os.path.join(os.environ["VERIF_WORKDIR"], "other_volume", "lnk")
+    os.makedirs(os.path.join(ext, os.path.basename(tree.entity_path(ref, pr, below)[0])), exist_ok=True)
+    os.symlink(ext, tree.entity_path(ref, pr, lk)[0])
+    env.reset()
+    ents2 = dict(ents, LK=lk, LB=below)
+    st = Store(ref, pr, list(ents2.values()), sources_for_demo(load_private("spil_sid_conf")))
+    for v in check_relations(ref, pr, st, candidates(C, ents2, st)):
+        if "parent-level-without-data-source" in v["signature"]:
+            continue
+        rec.violation(v["signature"] + "/entity-folder-is-a-link", "linked", {}, v["observed"], v["expected"])
+    rec.case("linked-entity-world", True)
+    return rec.result()
 
 
 def run_world(sh):
@@ -278,6 +313,8 @@ def run_world(sh):
 def run_shard(sh):
     if sh.get("mode") == "world":
         return run_world(sh)
+    if sh.get("mode") == "linked":
+        return run_linked(sh)
     from mc import env, tree, bfs
     C = c15.ctx()
     ents = entities(C, sh["tier"])
@@ -361,6 +398,8 @@ def replay_case(kind, case):
     if kind == "world":
         r = run_world({"seed": 0})
         return [v for lst in r["violations"].values() for v in lst]
+    if kind == "linked":
+        return [v for lst in run_linked()["violations"].values() for v in lst]
     from mc import env
     C = c15.ctx()
     ents = entities(C, case.get("tier", "thorough"))
